@@ -375,5 +375,94 @@ pub fn run(ctx: &Ctx) {
 			ctx.sample(|| format!("random history #{}: {} -> {:?}", i, crate::util::clip(&ops_text(&ops), 300), m));
 		});
 	}
+	// --- histories that START from an imported name (CA certificate or CSR read back by rcgen):
+	// an imported name is the same insertion-ordered map as one built by hand
+	#[cfg(not(miri))]
+	if ctx.replay.as_ref().map_or(true, |r| r.workload == "imported-start") {
+		// attribute types that the import maps to themselves
+		let itypes: Vec<DnType> = vec![
+			DnType::CountryName,
+			DnType::LocalityName,
+			DnType::StateOrProvinceName,
+			DnType::OrganizationName,
+			DnType::OrganizationalUnitName,
+			DnType::CommonName,
+			DnType::CustomDnType(vec![1, 2, 3, 4]),
+			DnType::CustomDnType(vec![0, 9, 2342, 19200300, 100, 1, 25]),
+			DnType::CustomDnType(vec![2, 999, 1]),
+		];
+		par_for(ctx.scale(3_000, 60_000), ctx.threads, |i| {
+			let case = CaseId::new("imported-start", ctx.seed, i);
+			if let Some(r) = &ctx.replay {
+				if r.index != i {
+					return;
+				}
+			}
+			let mut rng = case.rng();
+			let values: Vec<DnValue> = (0..6)
+				.map(|_| {
+					let k = *rng.pick(&ALL_KINDS);
+					let mut t = crate::spec::gen_text(&mut rng, k, 10);
+					if t.is_empty() {
+						t.push('x');
+					}
+					dn_value(k, &t)
+				})
+				.collect();
+			let mut m: Model = Vec::new();
+			let mut ops = Vec::new();
+			for _ in 0..1 + rng.below(5) {
+				let op = Op::Push(rng.below(itypes.len() as u64) as usize, rng.below(values.len() as u64) as usize);
+				model_apply(&mut m, &itypes, &values, &op);
+				ops.push(op);
+			}
+			let via_csr = i % 2 == 1;
+			let start = rebuild(&m);
+			let imported = crate::guard(|| -> Result<DistinguishedName, String> {
+				let mut p = CertificateParams::default();
+				p.distinguished_name = start.clone();
+				if via_csr {
+					let csr = p.serialize_request(&key).map_err(|e| e.to_string())?;
+					Ok(rcgen::CertificateSigningRequestParams::from_der(csr.der()).map_err(|e| e.to_string())?.params.distinguished_name)
+				} else {
+					p.is_ca = rcgen::IsCa::Ca(rcgen::BasicConstraints::Unconstrained);
+					let c = p.self_signed(&key).map_err(|e| e.to_string())?;
+					Ok(CertificateParams::from_ca_cert_der(c.der()).map_err(|e| e.to_string())?.distinguished_name)
+				}
+			});
+			let hist0 = format!("{} -> {} -> import", ops_text(&ops), if via_csr { "CSR" } else { "CA certificate" });
+			let mut dn = match imported {
+				Ok(Ok(d)) => d,
+				Ok(Err(e)) => return ctx.violation("c20:import-refused", &case, &hist0, &e),
+				Err(p) => return ctx.violation("c20:import-panic", &case, &hist0, &p),
+			};
+			ctx.count("eval:imported_starts");
+			if let Err((what, d)) = compare(&dn, &m, &itypes) {
+				return ctx.violation(&format!("c20:imported:{}", what), &case, &hist0, &d);
+			}
+			let mut ops2 = Vec::new();
+			for _ in 0..1 + rng.below(6) {
+				let op = if rng.chance(3, 4) {
+					Op::Push(rng.below(itypes.len() as u64) as usize, rng.below(values.len() as u64) as usize)
+				} else {
+					Op::Remove(rng.below(itypes.len() as u64) as usize)
+				};
+				let want = model_apply(&mut m, &itypes, &values, &op);
+				let got = real_apply(&mut dn, &itypes, &values, &op);
+				ops2.push(op);
+				ctx.count("steps_checked");
+				let hist = format!("{}; then {}", hist0, ops_text(&ops2));
+				if got != want {
+					ctx.violation("c20:remove-result", &case, &hist, &format!("remove returned {:?}, model {:?}", got, want));
+				}
+				if let Err((what, d)) = compare(&dn, &m, &itypes) {
+					return ctx.violation(&format!("c20:{}", what), &case, &hist, &d);
+				}
+				// the certificate after every step: stale state shows only for some step counts
+				check_cert(ctx, &case, &key, &dn, &m, &hist);
+			}
+			ctx.distinct(fnv64(format!("{}{}", hist0, ops_text(&ops2)).as_bytes()));
+		});
+	}
 	let _ = Rng::new(0);
 }
